@@ -79,11 +79,14 @@ impl std::io::Write for SchedWriter {
         Ok(())
     }
 }
+/// an injected embedded-io failure; its KIND rotates with the position (Interrupted, TimedOut, Other ...):
+/// embedded-io's `read_exact` / `write_all` retry nothing, so whatever the kind, the call has failed
 #[derive(Debug)]
-pub struct Injected;
+pub struct Injected(pub usize);
 impl embedded_io::Error for Injected {
     fn kind(&self) -> embedded_io::ErrorKind {
-        embedded_io::ErrorKind::Other
+        use embedded_io::ErrorKind::*;
+        [Interrupted, Other, TimedOut, Interrupted, BrokenPipe, InvalidData, Interrupted, OutOfMemory][self.0 % 8]
     }
 }
 pub struct EioW(pub SchedWriter);
@@ -92,11 +95,11 @@ impl embedded_io::ErrorType for EioW {
 }
 impl embedded_io::Write for EioW {
     fn write(&mut self, buf: &[u8]) -> Result<usize, Injected> {
-        self.0.accept(buf).map_err(|_| Injected)
+        { let k = self.0.written.len(); self.0.accept(buf).map_err(|_| Injected(k)) }
     }
     fn flush(&mut self) -> Result<(), Injected> {
         if self.0.flush_fails {
-            return Err(Injected);
+            return Err(Injected(self.0.written.len()));
         }
         Ok(())
     }
@@ -161,7 +164,7 @@ impl embedded_io::ErrorType for EioR {
 }
 impl embedded_io::Read for EioR {
     fn read(&mut self, buf: &mut [u8]) -> Result<usize, Injected> {
-        self.0.deliver(buf).map_err(|_| Injected)
+        { let k = self.0.pos; self.0.deliver(buf).map_err(|_| Injected(k)) }
     }
 }
 
@@ -590,6 +593,18 @@ pub fn gen_deseq(r: &mut Rng, thorough: bool, out: &mut Vec<String>) {
 
 pub fn gen_c11(r: &mut Rng, thorough: bool, out: &mut Vec<String>) {
     gen_deseq(r, thorough, out);
+    // header-only values (an index / length / tag and nothing after it) against a writer failing at every offset
+    for (k, (_, v)) in header_only_vals().into_iter().enumerate() {
+        let l = postcard::to_allocvec(&v).map(|b| b.len()).unwrap_or(1);
+        if l > 4 {
+            continue;
+        }
+        let adapter = if k % 2 == 0 { "std" } else { "eio" };
+        for f in 0..=l {
+            out.push(format!("wio {} {} {} {}", adapter, f, k % 3, v));
+        }
+        out.push(format!("wio {}ff none 0 {}", adapter, v));
+    }
     let n = if thorough { 4000 } else { 250 };
     for i in 0..n {
         let t = loop {
